@@ -532,6 +532,7 @@ class Engine:
         for a, b in zip(out.v.arrs, sv.v.arrs):
             st.assume(z3.ForAll([j], Implies(And(j >= 0, j < n), z3.Select(a, j) == z3.Select(b, j + lo)),
                                 patterns=[z3.Select(a, j)]))
+        out.tag = ("slice", sv, lo, hi)
         return out
 
     def clamp_slice(self, length, lo: Optional[SV], hi: Optional[SV]):
@@ -596,6 +597,8 @@ class Engine:
             key = f"G.{name}"
             if key not in self.globals_sym:
                 gty = self.global_types().get(name)
+                if gty is None and name.endswith("_REGEX"):
+                    gty = STR
                 if gty is None:
                     raise Unsupported(f"module global {name} is not a literal and has no declared type")
                 self.globals_sym[key] = SV(gty, z3.Const(f"G_{name}", flat_sorts(gty)[0]), tag=("global", name))
@@ -730,6 +733,9 @@ class Engine:
         return val
 
     def do_slice(self, st, recv: SV, lo, hi) -> SV:
+        if recv.ty.kind == "str" and self.spec_mode and lo is not None and hi is not None and lo.ty.kind == "int" and hi.ty.kind == "int":
+            # contract expressions slice with in-range, ordered bounds only
+            return SV(STR, z3.SubString(recv.v, lo.v, hi.v - lo.v))
         if recv.ty.kind == "str":
             a, b = self.clamp_slice(z3.Length(recv.v), lo, hi)
             return SV(STR, z3.SubString(recv.v, a, b - a))
@@ -1091,7 +1097,7 @@ class Engine:
             vflat0 = to_flat(val)
             st.assume(z3.ForAll([i], Implies(And(i >= 0, i < src.v.len), And(*[z3.Select(a, i) == c for a, c in zip(out.v.arrs, vflat0)])),
                                 patterns=[z3.Select(out.v.arrs[0], i)]))
-            out.tag = ("map", src)
+            out.tag = ("map", src, i, val)
             return out
         emb = z3.Function(fresh_name("emb"), z3.IntSort(), z3.IntSort())
         inv = z3.Function(fresh_name("inv"), z3.IntSort(), z3.IntSort())
@@ -1274,7 +1280,8 @@ class Engine:
         # evaluate in a scratch copy of the store so that spec evaluation cannot disturb program variables
         st2 = st
         store_saved = st.store
-        st.store = dict(st.store) if c is None or c.qname == (self.fn.qname if self.fn else "") else {}
+        own = c is None or c.qname == (self.fn.qname if self.fn else "")
+        st.store = dict(st.store) if own else {k2: v2 for k2, v2 in st.store.items() if k2.startswith("ghost.") and k2[6:] in c.ghost}
         st.store.update(env)
         self.lambda_env = []
         try:
@@ -1309,6 +1316,12 @@ class Engine:
         self.guards = []
         st.trace.append(f"L{s.lineno - self.fn.node.lineno + 1}:{type(s).__name__}")
         outs = m(s, st)
+        label = getattr(self, "stmt_labels", {}).get(id(s))
+        if label and self.reg.ghost.get(self.fn.qname):
+            from . import loops
+            for o in outs:
+                if o.kind == "normal":
+                    loops.run_ghost(self, o.st, f"after:{label}", self.loop_stack[-1]["k"] if self.loop_stack else None)
         return outs
 
     def flush_raises(self, st: State) -> List[Outcome]:
